@@ -84,7 +84,11 @@ func encodeEvents(c *Ctx, p *Profile, sch *Schema, id *int, perType int, perFiel
 		for k := 0; k < perType; k++ {
 			emit(st.T, k, -1, -1, "random subset")
 		}
-		if perField {
+		reps := 1
+		if perField && c.thorough() {
+			reps = 6 // more value patterns per field
+		}
+		for rep := 0; perField && rep < reps; rep++ {
 			// every hosted message type, every field alone, both byte orders
 			for _, sl := range st.Slots {
 				pm := p.by[sl.M]
